@@ -15,7 +15,7 @@ META = {
     "engine": "A (all targets x forms x back ends x all outcome branches)",
     "rule": "a case = (graph, input form, solver back end/setting); each is expanded over every outcome branch of the returned "
             "circuit on both compilers; non-trivial = target has an edge; distinct = distinct (graph, form, backend, branch)",
-    "bounds": {"quick": "all labelled graphs n<=4 in forms g,g1,s,sx,dm with solver back end stab/dm x forced 0/1; n=5 form g, stabilizer back end; "
+    "bounds": {"quick": "all labelled graphs n<=4 in forms g,g1,s,sx,dm with solver back end stab/dm x forced 0/1; n=5 form g, stabilizer back end; n=6: every 8th labelled graph (4096), form g, stabilizer back end; "
                         "all outcome branches on both compilers (dm when <=6 qubits)",
                "thorough": "n=5 all forms; n=6 graph form; dm compiler up to 8 qubits"},
     "assumptions": ["R1 state vectors up to 9 qubits", "score tolerance 1e-9"],
@@ -32,6 +32,9 @@ def shards(tier):
     if tier == "quick":
         for i in range(0, 1024, step):
             out.append({"n": 5, "lo": i, "hi": i + step, "forms": ["g"], "backends": ["stab"]})
+        # every 8th labelled graph on 6 vertices (masks = 5 mod 8): 4096 targets, graph form, stabilizer back end, one setting
+        for i in range(0, 32768, 1024):
+            out.append({"n": 6, "lo": i, "hi": i + 1024, "forms": ["g"], "backends": ["stab"], "stride": 8, "offset": 5, "settings": [1]})
     else:
         for i in range(0, 1024, step):
             out.append({"n": 5, "lo": i, "hi": i + step, "forms": ["g", "sx", "dm"], "backends": ["stab", "dm"]})
@@ -114,13 +117,15 @@ def run_shard(shard, tier, acc):
     n = shard["n"]
     pairs = list(itertools.combinations(range(n), 2))
     for mask in range(shard["lo"], shard["hi"]):
+        if shard.get("stride") and mask % shard["stride"] != shard["offset"]:
+            continue
         edges = [p for i, p in enumerate(pairs) if (mask >> i) & 1]
         seen = set()
         for form in shard["forms"]:
             if form == "dm" and n > 5:
                 continue
             for backend in shard["backends"]:
-                for setting in (0, 1):
+                for setting in shard.get("settings", (0, 1)):
                     check_target(acc, n, edges, form, backend, setting, tier, seen)
     acc.sample({"n": n, "edges": [list(e) for e in edges], "forms": shard["forms"]})
 
